@@ -5,7 +5,7 @@ from checks import engine as E, common as C
 from checks.engine import Failure
 
 WHAT = "model,hooks,classes,wf"
-RULE = ("regression corpus + the repository's own test snippets (also under verbosity OFF / INFORMATION / MANDATORY) + seeded random programs "
+RULE = ("regression corpus + the repository's own test snippets (also under verbosity OFF / INFORMATION / MANDATORY) + the shape catalogue + seeded random programs "
         "(gen/jsgen.py) under configurations drawn from a pool (method subsets/renamings, every verbosity spelling); the extracted "
         "hook-site counter / tagger (coq/HookSites.v) runs on the implementation's own output tree; a case is non-trivial when the "
         "implementation accepted it and emitted at least one hook call; distinct by source text")
@@ -18,6 +18,8 @@ def cases(O):
     for v in ("OFF", "INFORMATION", "MANDATORY"):
         cs += [dict(c, id=c["id"] + "-" + v, config=vlib.default_config(telemetryVerbosity=v)) for c in F.snippet_cases()[:40]]
     cs += F.generated_cases(O.seed, n, "c15", cfg_fn=F.config_variants)
+    # the shape catalogue: every operation form in every context (a sub-expression that the rewriter copies would be counted once and emitted twice)
+    cs += E.catalogue_cases(O.seed, n, "c15", cfg_fn=lambda rng: F.config_variants(rng) if rng.random() < 0.3 else vlib.default_config(telemetryVerbosity=rng.choice(["DEBUG", "INFORMATION"])))
     # orders matter: an instrumented operation followed / preceded by inspected-but-untouched ones, nested blocks
     mixes = ["{ const a = b.trim(); const c = 'x' + 'y'; }", "{ const c = 'x' + 'y'; const a = b.trim(); }",
              "function f(a){ const x = a + b; { const y = 1 + 2; const z = `q${'w'}`; } return 'a' + 'b'; }",
